@@ -51,6 +51,18 @@ static void f_dot_a(const u64 *s, const u64 *b, u64 *o) { St4 a = ld(s); Aligned
 static void f_mm4(const u64 *s, const u64 *b, u64 *o) { St4 a = ld(s); ExactCoef<48> c(b); __m256i r; Goldilocks::mmult_avx_4x12(r, a.a0, a.a1, a.a2, c.c); Goldilocks::store_avx((E *)o, r); }
 static void f_mm4_a(const u64 *s, const u64 *b, u64 *o) { St4 a = ld(s); AlignedCoef<48> c(b); __m256i r; Goldilocks::mmult_avx_4x12_a(r, a.a0, a.a1, a.a2, c.c); Goldilocks::store_avx((E *)o, r); }
 static void f_mm4_8(const u64 *s, const u64 *b, u64 *o) { St4 a = ld(s); ExactCoef<48> c(b); __m256i r; Goldilocks::mmult_avx_4x12_8(r, a.a0, a.a1, a.a2, c.c); Goldilocks::store_avx((E *)o, r); }
+// result register = one of the state registers (in-place accumulation as callers may write it)
+#define SPMV_ALIAS(name, fn, K, COEF)                                                                                  \
+    static void name(const u64 *s, const u64 *b, u64 *o) { St4 a = ld(s); COEF c(b); Goldilocks::fn(a.a##K, a.a0, a.a1, a.a2, c.c); Goldilocks::store_avx((E *)o, a.a##K); }
+SPMV_ALIAS(f_spmv_al0, spmv_avx_4x12, 0, ExactCoef<12>)
+SPMV_ALIAS(f_spmv_al1, spmv_avx_4x12, 1, ExactCoef<12>)
+SPMV_ALIAS(f_spmv_al2, spmv_avx_4x12, 2, ExactCoef<12>)
+SPMV_ALIAS(f_spmv_a_al2, spmv_avx_4x12_a, 2, AlignedCoef<12>)
+SPMV_ALIAS(f_spmv_8_al0, spmv_avx_4x12_8, 0, ExactCoef<12>)
+SPMV_ALIAS(f_spmv_8_al2, spmv_avx_4x12_8, 2, ExactCoef<12>)
+SPMV_ALIAS(f_mm4_al0, mmult_avx_4x12, 0, ExactCoef<48>)
+SPMV_ALIAS(f_mm4_al2, mmult_avx_4x12, 2, ExactCoef<48>)
+SPMV_ALIAS(f_mm4_8_al1, mmult_avx_4x12_8, 1, ExactCoef<48>)
 static inline void stall(u64 *o, const St4 &a) { Goldilocks::store_avx((E *)o, a.a0); Goldilocks::store_avx((E *)(o + 4), a.a1); Goldilocks::store_avx((E *)(o + 8), a.a2); }
 static void f_mm(const u64 *s, const u64 *b, u64 *o) { St4 a = ld(s); ExactCoef<144> c(b); Goldilocks::mmult_avx(a.a0, a.a1, a.a2, c.c); stall(o, a); }
 static void f_mm_a(const u64 *s, const u64 *b, u64 *o) { St4 a = ld(s); AlignedCoef<144> c(b); Goldilocks::mmult_avx_a(a.a0, a.a1, a.a2, c.c); stall(o, a); }
@@ -75,6 +87,13 @@ static void g_spmv_8(const u64 *s, const u64 *b, u64 *o) { St8 a = ld8(s); Exact
 static void g_dot(const u64 *s, const u64 *b, u64 *o) { St8 a = ld8(s); ExactCoef<12> c(b); E r[2]; Goldilocks::dot_avx512(r, a.a0, a.a1, a.a2, c.c); o[0] = r[0].fe; o[1] = r[1].fe; }
 static void g_mm4(const u64 *s, const u64 *b, u64 *o) { St8 a = ld8(s); ExactCoef<48> c(b); __m512i r; Goldilocks::mmult_avx512_4x12(r, a.a0, a.a1, a.a2, c.c); Goldilocks::store_avx512((E *)o, r); }
 static void g_mm4_8(const u64 *s, const u64 *b, u64 *o) { St8 a = ld8(s); ExactCoef<48> c(b); __m512i r; Goldilocks::mmult_avx512_4x12_8(r, a.a0, a.a1, a.a2, c.c); Goldilocks::store_avx512((E *)o, r); }
+#define SPMV8_ALIAS(name, fn, K, N)                                                                                    \
+    static void name(const u64 *s, const u64 *b, u64 *o) { St8 a = ld8(s); ExactCoef<N> c(b); Goldilocks::fn(a.a##K, a.a0, a.a1, a.a2, c.c); Goldilocks::store_avx512((E *)o, a.a##K); }
+SPMV8_ALIAS(g_spmv_al0, spmv_avx512_4x12, 0, 12)
+SPMV8_ALIAS(g_spmv_al2, spmv_avx512_4x12, 2, 12)
+SPMV8_ALIAS(g_spmv_8_al1, spmv_avx512_4x12_8, 1, 12)
+SPMV8_ALIAS(g_mm4_al2, mmult_avx512_4x12, 2, 48)
+SPMV8_ALIAS(g_mm4_8_al0, mmult_avx512_4x12_8, 0, 48)
 static inline void stall8(u64 *o, const St8 &a)
 {
     alignas(64) E t[24];
@@ -89,25 +108,39 @@ static void g_mm_8(const u64 *s, const u64 *b, u64 *o) { St8 a = ld8(s); ExactCo
 #endif
 
 static const MEntry entries[] = {
-    {"spmv_avx_4x12", 1, MK_SPMV, 0, f_spmv},
-    {"spmv_avx_4x12_a", 1, MK_SPMV, 0, f_spmv_a},
-    {"spmv_avx_4x12_8", 1, MK_SPMV, 1, f_spmv_8},
-    {"dot_avx", 1, MK_DOT, 0, f_dot},
-    {"dot_avx_a", 1, MK_DOT, 0, f_dot_a},
-    {"mmult_avx_4x12", 1, MK_MMULT4x12, 0, f_mm4},
-    {"mmult_avx_4x12_a", 1, MK_MMULT4x12, 0, f_mm4_a},
-    {"mmult_avx_4x12_8", 1, MK_MMULT4x12, 1, f_mm4_8},
-    {"mmult_avx", 1, MK_MMULT, 0, f_mm},
-    {"mmult_avx_a", 1, MK_MMULT, 0, f_mm_a},
-    {"mmult_avx_8", 1, MK_MMULT, 1, f_mm_8},
+    {"spmv_avx_4x12", 1, MK_SPMV, 0, 0, f_spmv},
+    {"spmv_avx_4x12_a", 1, MK_SPMV, 0, 0, f_spmv_a},
+    {"spmv_avx_4x12_8", 1, MK_SPMV, 1, 0, f_spmv_8},
+    {"dot_avx", 1, MK_DOT, 0, 0, f_dot},
+    {"dot_avx_a", 1, MK_DOT, 0, 0, f_dot_a},
+    {"mmult_avx_4x12", 1, MK_MMULT4x12, 0, 0, f_mm4},
+    {"mmult_avx_4x12_a", 1, MK_MMULT4x12, 0, 0, f_mm4_a},
+    {"mmult_avx_4x12_8", 1, MK_MMULT4x12, 1, 0, f_mm4_8},
+    {"mmult_avx", 1, MK_MMULT, 0, 0, f_mm},
+    {"mmult_avx_a", 1, MK_MMULT, 0, 0, f_mm_a},
+    {"mmult_avx_8", 1, MK_MMULT, 1, 0, f_mm_8},
+    {"spmv_avx_4x12:c=a0", 1, MK_SPMV, 0, 1, f_spmv_al0},
+    {"spmv_avx_4x12:c=a1", 1, MK_SPMV, 0, 1, f_spmv_al1},
+    {"spmv_avx_4x12:c=a2", 1, MK_SPMV, 0, 1, f_spmv_al2},
+    {"spmv_avx_4x12_a:c=a2", 1, MK_SPMV, 0, 1, f_spmv_a_al2},
+    {"spmv_avx_4x12_8:c=a0", 1, MK_SPMV, 1, 1, f_spmv_8_al0},
+    {"spmv_avx_4x12_8:c=a2", 1, MK_SPMV, 1, 1, f_spmv_8_al2},
+    {"mmult_avx_4x12:b=a0", 1, MK_MMULT4x12, 0, 1, f_mm4_al0},
+    {"mmult_avx_4x12:b=a2", 1, MK_MMULT4x12, 0, 1, f_mm4_al2},
+    {"mmult_avx_4x12_8:b=a1", 1, MK_MMULT4x12, 1, 1, f_mm4_8_al1},
 #ifdef __AVX512__
-    {"spmv_avx512_4x12", 2, MK_SPMV, 0, g_spmv},
-    {"spmv_avx512_4x12_8", 2, MK_SPMV, 1, g_spmv_8},
-    {"dot_avx512", 2, MK_DOT, 0, g_dot},
-    {"mmult_avx512_4x12", 2, MK_MMULT4x12, 0, g_mm4},
-    {"mmult_avx512_4x12_8", 2, MK_MMULT4x12, 1, g_mm4_8},
-    {"mmult_avx512", 2, MK_MMULT, 0, g_mm},
-    {"mmult_avx512_8", 2, MK_MMULT, 1, g_mm_8},
+    {"spmv_avx512_4x12", 2, MK_SPMV, 0, 0, g_spmv},
+    {"spmv_avx512_4x12_8", 2, MK_SPMV, 1, 0, g_spmv_8},
+    {"dot_avx512", 2, MK_DOT, 0, 0, g_dot},
+    {"mmult_avx512_4x12", 2, MK_MMULT4x12, 0, 0, g_mm4},
+    {"mmult_avx512_4x12_8", 2, MK_MMULT4x12, 1, 0, g_mm4_8},
+    {"mmult_avx512", 2, MK_MMULT, 0, 0, g_mm},
+    {"mmult_avx512_8", 2, MK_MMULT, 1, 0, g_mm_8},
+    {"spmv_avx512_4x12:c=a0", 2, MK_SPMV, 0, 1, g_spmv_al0},
+    {"spmv_avx512_4x12:c=a2", 2, MK_SPMV, 0, 1, g_spmv_al2},
+    {"spmv_avx512_4x12_8:c=a1", 2, MK_SPMV, 1, 1, g_spmv_8_al1},
+    {"mmult_avx512_4x12:b=a2", 2, MK_MMULT4x12, 0, 1, g_mm4_al2},
+    {"mmult_avx512_4x12_8:b=a0", 2, MK_MMULT4x12, 1, 1, g_mm4_8_al0},
 #endif
 };
 #ifdef VW
